@@ -982,7 +982,10 @@ impl Model {
         p.nontrivial = !tags.is_empty();
         match st.op {
             Op::CloneVec => {
-                if !self.info.cloneable {
+                // clone() builds the new vector in a compiler-placed temporary: with inline (stack)
+                // storage and an element alignment above the vector object's own (8) that is
+                // finding D10 (misaligned storage) outside any placement the simulator controls.
+                if !self.info.cloneable || (self.info.be_of(slot).on_stack() && self.info.align > 8) {
                     p.r.op = Op::Nop;
                     return;
                 }
